@@ -270,7 +270,7 @@ func verifyFunc(P *Program, name string, tier Tier, outDir string, known []Known
 	}()
 	rep.Clauses = len(fc.Requires) + len(fc.Ensures) + len(fc.OnReturn) + len(fc.Calls)
 	for _, l := range fc.Loops {
-		rep.Clauses += len(l.Invariants)
+		rep.Clauses += len(l.Invariants) + len(l.Backedge)
 	}
 	rep.Loops = len(x.loopsOf(fn).heads)
 	rep.Paths = x.paths
